@@ -499,12 +499,55 @@ class _CopyProp:
         for s in rest[:last + 1]:
             if self._disturbing_before_use(s, x, names, attrs, subs):
                 return False
+        # ordered walk: once a statement has stored into a field / item the expression reads (x = a.f ... a.f = v),
+        # every LATER use of x would see the new value after substitution
+        if not self._ordered_ok(rest[:last + 1], x, attrs, subs, False)[0]:
+            return False
         # inside a loop body the binding is re-evaluated per iteration: fine (same block)
         sub = _Subst({x: rhs})
         for k in range(last + 1):
             rest[k] = sub.visit(rest[k])
         blk[i + 1:] = rest
         return True
+
+    def _ordered_ok(self, stmts, x, attrs, subs, stored):
+        """-> (ok, stored_after): walks statements in execution order; `stored` = a field the aliased expression reads
+        may have been written already."""
+        def uses(n):
+            return any(isinstance(m, ast.Name) and m.id == x and isinstance(m.ctx, ast.Load) for m in ast.walk(n))
+
+        def stores(n):
+            for m in ast.walk(n):
+                if isinstance(m, ast.Attribute) and isinstance(m.ctx, (ast.Store, ast.Del)) and m.attr in attrs:
+                    return True
+                if subs and isinstance(m, ast.Subscript) and isinstance(m.ctx, (ast.Store, ast.Del)):
+                    return True
+                if isinstance(m, ast.Call) and isinstance(m.func, ast.Name) and m.func.id in ('setattr', 'delattr'):
+                    return True
+            return False
+        for s in stmts:
+            if isinstance(s, ast.If):
+                if stored and uses(s.test):
+                    return False, stored
+                ok1, st1 = self._ordered_ok(s.body, x, attrs, subs, stored)
+                ok2, st2 = self._ordered_ok(s.orelse, x, attrs, subs, stored)
+                if not (ok1 and ok2):
+                    return False, stored
+                stored = st1 or st2
+            elif isinstance(s, (ast.For, ast.While, ast.AsyncFor)):
+                if uses(s) and (stored or stores(s)):
+                    return False, stored
+                stored = stored or stores(s)
+            elif isinstance(s, (ast.Try, ast.With, ast.AsyncWith, ast.Match)):
+                if uses(s) and (stored or stores(s)):
+                    return False, stored
+                stored = stored or stores(s)
+            else:
+                if stored and uses(s):
+                    return False, stored
+                # x.f = g(alias): the use is evaluated before the store of the same statement
+                stored = stored or stores(s)
+        return True, stored
 
     def _disturbing_before_use(self, s, x, names, attrs, subs) -> bool:
         """conservative: inside statement s, anything disturbing that is not the top-level store target of a simple
